@@ -84,7 +84,8 @@ def st_consistency_case(draw):
                "normalisers; oracle: nfeat == len(get_feat_usps()) == len(ueg_vector()) == len(get_reasonable_normalizer()) "
                "(NotImplementedError allowed and counted) == the count and scaling powers derived from the documentation "
                "(gen_settings.spec_nfeat / spec_usps); get_feat_loc == cumulative family counts ending at nfeat; "
-               "get_feat_loc_dict agrees; normaliser list length == nfeat; non-trivial = >= 2 families present",
+               "get_feat_loc_dict agrees; normaliser list length == nfeat; each family's slice of the recommended-normaliser list "
+               "equals that family's own recommendation (class and scaling power); non-trivial = >= 2 families present",
           tolerances={})
 def consistency(case, ctx):
     G.assert_tables_current()
@@ -115,6 +116,25 @@ def consistency(case, ctx):
     ctx.check(len(obj.normalizers.get_usps()) == obj.nfeat, ("FeatureSettings", "normalizer_usps_length"))
     ctx.check(len(obj.get_feat_usps(with_normalizers=True)) == obj.nfeat, ("FeatureSettings", "usps_with_normalizers_length"))
     ctx.check((obj.has_sl, obj.has_nldf, obj.has_nlof, obj.has_sdmx) == tuple(c > 0 for c in counts), ("FeatureSettings", "has_flags"))
+    # the recommended-normaliser list follows the feature layout: the slice of every family is that family's own list
+    try:
+        rn = obj.get_reasonable_normalizer()
+    except NotImplementedError:
+        rn = None
+    if rn is not None and len(rn) == obj.nfeat:
+        def sig(lst):
+            return [None if n is None else (type(n).__name__, round(float(n.get_usp()), 10)) for n in lst]
+
+        for i, (fam, sub) in enumerate((("sl", obj.sl_settings), ("nldf", obj.nldf_settings), ("nlof", obj.nlof_settings),
+                                        ("sdmx", obj.sdmx_settings))):
+            if spec.get(fam) is None:
+                continue
+            try:
+                own = sub.get_reasonable_normalizer()
+            except NotImplementedError:
+                continue
+            ctx.check(sig(rn[int(loc[i]): int(loc[i + 1])]) == sig(own), ("FeatureSettings", "reasonable_normalizer_family_order", fam),
+                      got=sig(rn[int(loc[i]): int(loc[i + 1])]), want=sig(own))
 
 
 # ------------------------------------------------------------------------------------------------
